@@ -39,3 +39,4 @@ def run(ctx, R):
     a64hsem.rule_mem_hsem(ctx, R)
     rvhsem.rule_mem_hsem(ctx, R)
     dsinit.rule_range(ctx, R, F)    # dataset initialisation writes exactly the requested items, never past the range or the allocation
+    rvhsem.rule_mem_hsem(ctx, R, 'rvv')
